@@ -148,9 +148,12 @@ def IterTables.wf (t : IterTables) : Bool :=
   t.iterWrites.isEmpty && t.otherWrites.isEmpty && t.initIterators.isEmpty && t.seqWrites.isEmpty &&
     t.iterReads.all (fun a => modelledAttrs.contains a) && t.rebuilds && t.lenIsCount && t.seqIterPlain
 
-/-- `DistributedSequentialSampler.__init__`: limit first, then `chunks`, then this rank's chunk (`rankVols`) -/
+/-- `DistributedSequentialSampler.__init__`: world size and (global) rank default to `communication`'s; limit first, then
+`chunks`, then this rank's chunk (`rankVols`) -/
 def expectedSeqInitOrder : List String :=
-  ["limit: filenames=filenames[:limit_number_of_volumes] if limit_number_of_volumes",
+  ["default: num_replicas=communication.get_world_size()",
+   "default: rank=communication.get_rank()",
+   "limit: filenames=filenames[:limit_number_of_volumes] if limit_number_of_volumes",
    "chunk: chunked_filenames<-chunks(filenames, self.num_replicas)",
    "select: filenames=chunked_filenames[self.rank]"]
 
